@@ -9,10 +9,15 @@ LOG_FIELDS = ["self.func_count", "self.X", "self.X_orig", "self.Y", "self.Y_orig
 @contract(FL + ".__call__", serves=["C03", "C10", "C12", "C01"])
 def _(c):
     c.ints("self.func_count", "self.Xn", "self.X_max_idx", "self.D")
+    c.ints("ghost.n_calls")
+    c.arr("self.X_flag", 1, [None], "bool")
     c.mod(*LOG_FIELDS)
+    c.mod("ghost.n_calls")
     c.result = {"tuple": [{"sort": "real"}, {"sort": "real", "maybe_none": True}, {"sort": "int", "maybe_none": True}]}
     # honest counting: exactly one more successful call is counted
     c.ens("count", "self.func_count == old(self.func_count) + 1", top=True, props=["C03", "C10"])
     c.ens("xn_monotone", "self.Xn >= old(self.Xn) and self.Xn <= old(self.Xn) + 1")
     c.ens("norecord_keeps_xn", "implies(not truthy(record_duplicate_data), self.Xn == old(self.Xn))")
+    c.ens("one_target_call", "ghost.n_calls == old(ghost.n_calls) + 1", top=True, props=["C03"])
+    c.ens("points_kept", "count_true(self.X_flag) >= old(count_true(self.X_flag))")
     c.may_raise("Exception")
